@@ -261,6 +261,7 @@ static void c05(const Trace& t, const Analysis& A, Verdict& V) {
 			if (e.inst != w.inst || e.kind != EV_CB) continue;
 			if (O.empty() || O.back() != std::make_pair(e.state, e.method)) { O.push_back({e.state, e.method}); at.push_back(i); }
 			if ((isReactPhase(e.method) || e.method == M_QUERY) && !e.evtOk) V.add(5, i, F("s%d.%s did not receive the caller's own event object", sidOf(e.state), methName(e.method)));
+			if (!e.thisOk) V.add(5, i, F("s%d.%s was not invoked on the machine's own %s object (access<T>() is a different object)", sidOf(e.state), methName(e.method), e.state == NOID ? "root" : "state"));
 		}
 		if (O != E) {
 			std::string so, se;
@@ -451,6 +452,8 @@ static void c11(const Trace& t, const Analysis& A, Verdict& V) {
 					if (!ok) V.add(11, w.e - 1, "replay did not run exactly the needed enter/exit/reenter callbacks");
 				}
 				if (e.prev.valid && e.prev.dest != e.mAct) V.add(11, w.e - 1, "after replay previousTransition().destination is not the active state");
+				// what was applied is the replayed transition: it names the destination and nothing else (no requester, no payload of some earlier request)
+				if (b.b == 0 && ret == 1 && e.prev.valid && (e.prev.hasPay || e.prev.origin != NOID)) V.add(11, w.e - 1, F("after replayTransition(%u) previousTransition() reads %s: it still carries the origin / payload of an earlier, unrelated transition", b.a, trStr(e.prev).c_str()));
 			}
 		}
 		if (f.scenario == SC_REPLICA) {
